@@ -58,6 +58,7 @@ type Run struct {
 	trans  atomic.Int64
 	traces atomic.Int64
 
+	seen        sync.Map
 	mu          sync.Mutex
 	distinct    map[string]struct{}
 	distinctN   int64
@@ -182,6 +183,7 @@ func (r *Run) Violate(key, desc string, cs interface{}, recheck func() bool) {
 	// reserve the key so that concurrent workers do not recheck it too
 	v := &Violation{Key: key, Desc: desc, Case: cs, Stable: true}
 	r.violations[key] = v
+	r.seen.Store(key, true)
 	r.vorder = append(r.vorder, key)
 	r.mu.Unlock()
 	if recheck != nil {
@@ -195,6 +197,13 @@ func (r *Run) Violate(key, desc string, cs interface{}, recheck func() bool) {
 			}
 		}
 	}
+}
+
+// Seen reports whether a violation with this key has been recorded already; hot
+// loops use it to skip formatting the description of the millionth duplicate.
+func (r *Run) Seen(key string) bool {
+	_, ok := r.seen.Load(key)
+	return ok
 }
 
 // NViolations is the number of distinct violation keys so far.
